@@ -133,6 +133,10 @@ class WaitForConditionOperationExecutor(OperationExecutor[T]):
             )
             # For async checkpoint, no immediate response possible
             # Proceed directly to execute with current checkpoint data
+        else:
+            # No START is sent for a record that is already STARTED: stop an orphaned branch
+            # before the check function runs
+            self.state.raise_if_orphaned(self.operation_identifier.operation_id)
 
         # Ready to execute check function
         return CheckResult.create_is_ready_to_execute(checkpointed_result)
